@@ -211,7 +211,7 @@ static int setup(void)
 	return 1;
 }
 
-static int g_pol; static uint64_t g_seed; static int g_depth; static char g_replay[1 << 16];
+static int g_pol; static uint64_t g_seed; static int g_depth; static char g_replay[1 << 18];
 
 static void vh_op(int argc, char **argv)
 {
@@ -264,7 +264,7 @@ static void vh_op(int argc, char **argv)
 		else vs_policy_replay(g_replay);
 		vs_set_max_steps(g_maxsteps);
 		if (g_kill_tid >= 0) vs_kill_after(g_kill_tid, g_kill_k);
-		vs_run();
+		if (vs_run() != VS_OK) vh_request_restart();
 		vs_print(stdout);
 		printf("geometry n_cacheline=%u n_bytes=%u total_bytes=%u\n", g_ncl, g_rb->n_bytes, g_rb->total_bytes);
 		printf("outcome committed=%d fetched=%d consumed=%d none=%d alloc_fail=%d fifo_viol=%d overlap_viol=%d "
